@@ -98,6 +98,7 @@ def run_check(mod, ctx):
     _MOD, _CTX = mod, ctx
     t0 = time.time()
     plan = mod.plan(ctx)
+    t_plan = time.time() - t0
     units = list(plan["units"])
     # VERIF_SEED only rotates the order in which units are handed out and
     # which samples are kept; the set of units is independent of it.
@@ -111,11 +112,13 @@ def run_check(mod, ctx):
         "outcomes": {}, "counters": {}, "units": len(units),
     }
     crashes = []
+    walls = []
 
     def absorb(res):
         if "_crash" in res:
             crashes.append(res)
             return
+        walls.append(res.get("_wall", 0.0))
         merged["evaluations"] += res.get("evaluations", 0)
         merged["nontrivial"] += res.get("nontrivial", 0)
         merged["violations"].extend(res.get("violations", ()))
@@ -149,6 +152,9 @@ def run_check(mod, ctx):
         sys.stderr.write("unit: %s\n" % crashes[0]["_unit"])
         return 2
 
+    merged["counters"]["unit_wall_max_s"] = round(max(walls or [0]), 2)
+    merged["counters"]["unit_wall_sum_s"] = round(sum(walls), 1)
+    merged["counters"]["plan_s"] = round(t_plan, 2)
     if hasattr(mod, "finish"):
         mod.finish(merged, plan, ctx)
 
